@@ -138,11 +138,11 @@ func c26Payload(seed uint64, idx uint64, opn int, n int) []byte {
 	return b
 }
 
-// tearLastTx invalidates the newest bbolt meta page of the file image (offsets
+// c26TearLastTx invalidates the newest bbolt meta page of the file image (offsets
 // per bbolt's page/meta layout: 16-byte page header; txid at +48, checksum at
 // +56 within the meta). The other meta page then wins at open: the state before
 // the last committed transaction.
-func tearLastTx(img []byte) bool {
+func c26TearLastTx(img []byte) bool {
 	ps := os.Getpagesize()
 	if len(img) < 2*ps {
 		return false
@@ -159,8 +159,8 @@ func tearLastTx(img []byte) bool {
 	return true
 }
 
-// lastTxid returns the highest transaction id recorded in the two meta pages.
-func lastTxid(path string) uint64 {
+// c26LastTxid returns the highest transaction id recorded in the two meta pages.
+func c26LastTxid(path string) uint64 {
 	b, err := os.ReadFile(path)
 	ps := os.Getpagesize()
 	if err != nil || len(b) < 2*ps {
@@ -274,7 +274,7 @@ func c26Run(c *core.Ctx, raw json.RawMessage) {
 		wasMut := lastMut
 		lastMut = false
 		synctest.Wait()
-		txBefore := lastTxid(path)
+		txBefore := c26LastTxid(path)
 		switch op.K {
 		case "enq":
 			idx := uint64(0)
@@ -295,7 +295,7 @@ func c26Run(c *core.Ctx, raw json.RawMessage) {
 				nIgn++ // at or below the highest key ever stored: must be ignored
 			}
 			synctest.Wait()
-			lastMut = lastTxid(path) > txBefore // the operation committed a bbolt transaction
+			lastMut = c26LastTxid(path) > txBefore // the operation committed a bbolt transaction
 			if !observe(fmt.Sprintf("%d enq %d (%dB)", opn, idx, len(data))) {
 				return
 			}
@@ -313,7 +313,7 @@ func c26Run(c *core.Ctx, raw json.RawMessage) {
 				}
 			}
 			synctest.Wait()
-			lastMut = lastTxid(path) > txBefore
+			lastMut = c26LastTxid(path) > txBefore
 			if !observe(fmt.Sprintf("%d del <=%d", opn, idx)) {
 				return
 			}
@@ -404,7 +404,7 @@ func c26Run(c *core.Ctx, raw json.RawMessage) {
 			if err != nil {
 				panic(err)
 			}
-			if !tearLastTx(b) {
+			if !c26TearLastTx(b) {
 				continue
 			}
 			q.Close()
